@@ -118,7 +118,7 @@ def part_vertex(ctx):
     s = Sym(z3.Real("s"))
 
     class Hull:
-        simplices = np.array([[2, 0, 3]])     # facet 1 is the 'other' facet
+        simplices = np.array([[2, 1, 3]])     # facet 0 is the 'other' facet
 
     D = np.array([[Sym(z3.Real("d%d_%d" % (i, k))) for k in range(3)] for i in range(4)], dtype=object).view(symx.OArr)
 
@@ -148,7 +148,7 @@ def part_vertex(ctx):
     w0, w, ws = paths[0].value
     x = w.wulff_vertices[0]
     d0 = w0.facet_dual_vectors
-    a, b, c = D[2], D[0], D[3]
+    a, b, c = D[2], D[1], D[3]
     nrm = np.cross(b - a, c - a)
     pc = paths[0].pc
     tasks = []
@@ -158,17 +158,17 @@ def part_vertex(ctx):
     pos = [e.t > 0 for e in E] + [s.t > 0]
     nd = (nrm[0] * a[0] + nrm[1] * a[1] + nrm[2] * a[2])
     nondeg = [(nd != 0).t]
-    for i in (2, 0, 3):
+    for i in (2, 1, 3):
         tasks.append(dict(name="vertex: the vertex of a dual simplex lies on the plane of its facet %d (n.x = e, with n = e d)" % i, assumptions=pos + nondeg,
                           goal=(sum(E[i] * D[i, k] * x[k] for k in range(3)) == E[i]).t, extract=lambda m: {}, timeout=ctx.default_timeout))
-    side_p = sum(nrm[k] * (D[1, k] - a[k]) for k in range(3))
+    side_p = sum(nrm[k] * (D[0, k] - a[k]) for k in range(3))
     side_o = sum(nrm[k] * (0 - a[k]) for k in range(3))
     contract = [z3.Or(z3.And(side_o.t < 0, side_p.t <= 0), z3.And(side_o.t > 0, side_p.t >= 0))]
     tasks.append(dict(name="vertex: the vertex satisfies the inequality of every other facet (n_p.x <= e_p) under the hull contract", assumptions=pos + contract,
-                      goal=(sum(E[1] * D[1, k] * x[k] for k in range(3)) <= E[1]).t, extract=lambda m: {}, timeout=ctx.default_timeout * 2))
+                      goal=(sum(E[0] * D[0, k] * x[k] for k in range(3)) <= E[0]).t, extract=lambda m: {}, timeout=ctx.default_timeout * 2))
     ctx.note("scaling: the vertex lemmas hold for arbitrary dual points and energies, so the shape for energies s*e (dual points d/s) is the unique solution of "
              "n_i.x' = s e_i, i.e. x' = s x (instance of the universally quantified lemma + uniqueness of a non-degenerate 3x3 system; not a separate query)")
-    okf = w.wulff_facets[0] == [0] and w.wulff_facets[2] == [0] and w.wulff_facets[3] == [0] and w.wulff_facets[1] == []
+    okf = w.wulff_facets[1] == [0] and w.wulff_facets[2] == [0] and w.wulff_facets[3] == [0] and w.wulff_facets[0] == []
     ctx.record("vertex: membership lists -- the vertex is listed under exactly the three facets of its simplex", "holds" if okf else "counterexample", nontrivial=True)
     res = ctx.query_many(tasks)
     for t, r in zip(tasks, res):
